@@ -1015,6 +1015,7 @@ fn c11_queries(real: &Real, model: &Model, obs: &Obs, q: &mut u64) -> Result<(),
     }
   }
 
+  let mut solo_sorted: Vec<Vec<u8>> = vec![Vec::new(); k]; // what `descendants(i)` yields when used alone
   for i in 0..k {
     // The four outgoing and four incoming accessors against the model lists, in order.
     let m_out = &model.out[i];
@@ -1057,7 +1058,7 @@ fn c11_queries(real: &Real, model: &Model, obs: &Obs, q: &mut u64) -> Result<(),
       }
     }
 
-    // Descendant iterators.
+    // Descendant iterators (one at a time; two at a time further below).
     let mut exp_desc: Vec<u8> = (0..k).filter(|j| reaches(i, *j)).map(|j| j as u8).collect();
     exp_desc.sort();
     *q += 1;
@@ -1108,6 +1109,95 @@ fn c11_queries(real: &Real, model: &Model, obs: &Obs, q: &mut u64) -> Result<(),
         if !ranks.windows(2).all(|w| w[0].is_some() && w[0] < w[1]) {
           return Err(fail("C11/descendants", format!("descendants({}) yields {:?} with ranks {:?}, not strictly ascending", i, items, ranks), json!("strictly ascending rank"), json!(ranks)));
         }
+        solo_sorted[i] = items;
+      }
+    }
+  }
+
+  // Two descendant iterators alive at the same time: each must yield exactly what it yields alone (checked above:
+  // the reachable set, each node once, the sorted variant in ascending rank). For every ordered pair (x, y) where x
+  // has at least two descendants (fewer cannot be disturbed into a repetition) and y at least one: both advanced
+  // alternately (sorted/sorted, unsorted/unsorted, sorted zipped with unsorted), and nested (for every item of the
+  // outer iterator over x, an iterator over y run to completion), for the sorted and the unsorted variant.
+  for x in 0..k {
+    if !model.alive[x] || solo_sorted[x].len() < 2 { continue; }
+    for y in 0..k {
+      if !model.alive[y] || solo_sorted[y].is_empty() { continue; }
+      let sorted_set = |v: &[u8]| { let mut s = v.to_vec(); s.sort(); s };
+      let (want_x, want_y) = (&solo_sorted[x], &solo_sorted[y]);
+      let (set_x, set_y) = (sorted_set(want_x), sorted_set(want_y));
+      let bad = |how: &str, which: &str, node: usize, got: &[u8], want: &[u8]| {
+        fail("C11/descendants-interleaved", format!("{}: the {} iterator over the descendants of {} yields {:?} while another iterator over the descendants of {} is in use; alone it yields {:?}", how, which, node, got, if node == x { y } else { x }, want), json!(want), json!(got))
+      };
+      let idx = |n: Node| real.idx(&n);
+      // (a) alternately, sorted / sorted
+      *q += 2;
+      {
+        let (mut a, mut b) = (dag.descendants(h[x]).ok(), dag.descendants(h[y]).ok());
+        let (mut ga, mut gb) = (Vec::new(), Vec::new());
+        loop {
+          let na = a.as_mut().and_then(|i| i.next());
+          let nb = b.as_mut().and_then(|i| i.next());
+          if let Some(n) = na { ga.push(idx(n)); }
+          if let Some(n) = nb { gb.push(idx(n)); }
+          if na.is_none() && nb.is_none() || ga.len() > 4 * k + 4 { break; }
+        }
+        if &ga != want_x { return Err(bad("advanced alternately", "sorted", x, &ga, want_x)); }
+        if &gb != want_y { return Err(bad("advanced alternately", "sorted", y, &gb, want_y)); }
+      }
+      // (b) alternately, unsorted / unsorted
+      *q += 2;
+      {
+        let (mut a, mut b) = (dag.descendants_unsorted(h[x]).ok(), dag.descendants_unsorted(h[y]).ok());
+        let (mut ga, mut gb) = (Vec::new(), Vec::new());
+        loop {
+          let na = a.as_mut().and_then(|i| i.next());
+          let nb = b.as_mut().and_then(|i| i.next());
+          if let Some((_, n)) = na { ga.push(idx(n)); }
+          if let Some((_, n)) = nb { gb.push(idx(n)); }
+          if na.is_none() && nb.is_none() || ga.len() > 4 * k + 4 { break; }
+        }
+        if sorted_set(&ga) != set_x { return Err(bad("advanced alternately", "unsorted", x, &ga, &set_x)); }
+        if sorted_set(&gb) != set_y { return Err(bad("advanced alternately", "unsorted", y, &gb, &set_y)); }
+      }
+      // (c) sorted over x zipped with unsorted over y (zip stops with the shorter one; the rest of each is drained)
+      *q += 2;
+      {
+        let (mut a, mut b) = (dag.descendants(h[x]).ok(), dag.descendants_unsorted(h[y]).ok());
+        let (mut ga, mut gb) = (Vec::new(), Vec::new());
+        if let (Some(a), Some(b)) = (a.as_mut(), b.as_mut()) {
+          for (n, (_, m)) in a.zip(b) { ga.push(idx(n)); gb.push(idx(m)); }
+        }
+        if let Some(a) = a.as_mut() { ga.extend(a.map(idx)); }
+        if let Some(b) = b.as_mut() { gb.extend(b.map(|(_, m)| idx(m))); }
+        // `zip` may have taken one more item from the first iterator than it reported: then exactly one is missing.
+        let complete = |got: &[u8], want: &[u8]| got == want || (got.len() + 1 == want.len() && got.iter().all(|g| want.contains(g)) && sorted_set(got).windows(2).all(|w| w[0] != w[1]));
+        if !complete(&ga, want_x) { return Err(bad("sorted zipped with unsorted", "sorted", x, &ga, want_x)); }
+        if sorted_set(&gb) != set_y { return Err(bad("sorted zipped with unsorted", "unsorted", y, &gb, &set_y)); }
+      }
+      // (d) nested: for every item of the outer iterator over x, an iterator over y run to completion
+      *q += 2;
+      {
+        let mut ga = Vec::new();
+        if let Ok(a) = dag.descendants(h[x]) {
+          for n in a {
+            ga.push(idx(n));
+            let gb: Vec<u8> = dag.descendants(h[y]).map(|b| b.map(idx).collect()).unwrap_or_default();
+            if &gb != want_y { return Err(bad("nested (inner, run to completion for every item of the outer)", "sorted", y, &gb, want_y)); }
+            if ga.len() > 4 * k + 4 { break; }
+          }
+        }
+        if &ga != want_x { return Err(bad("nested (outer)", "sorted", x, &ga, want_x)); }
+        let mut ga = Vec::new();
+        if let Ok(a) = dag.descendants_unsorted(h[x]) {
+          for (_, n) in a {
+            ga.push(idx(n));
+            let gb: Vec<u8> = dag.descendants_unsorted(h[y]).map(|b| b.map(|(_, m)| idx(m)).collect()).unwrap_or_default();
+            if sorted_set(&gb) != set_y { return Err(bad("nested (inner, run to completion for every item of the outer)", "unsorted", y, &gb, &set_y)); }
+            if ga.len() > 4 * k + 4 { break; }
+          }
+        }
+        if sorted_set(&ga) != set_x { return Err(bad("nested (outer)", "unsorted", x, &ga, &set_x)); }
       }
     }
   }
@@ -2141,7 +2231,8 @@ a rejected insertion leaves the complete observable state unchanged; ranks bijec
 and every API edge; API adjacency acyclic",
     Prop::C11 => "C11: complete real state == complete model state after every operation (alive set, ordered outgoing/incoming lists with data, \
 no stray edge data); removals return exactly the removed data; a re-insertion changes nothing observable; contains_node, get_node_data, len, is_empty, contains_edge, get_edge_data, \
-contains_transitive_edge (twice, and again after an unrelated query), the eight adjacency accessors, symmetry, descendants_unsorted, descendants, \
+contains_transitive_edge (twice, and again after an unrelated query), the eight adjacency accessors, symmetry, descendants_unsorted, descendants \
+(each alone, and two iterators alive at the same time: advanced alternately, zipped, nested), \
 topo_cmp for all handles / ordered pairs ever created",
   }));
   rep.assume("DAG treats slotmap keys and edge data opaquely (argued in mc/src/dag.rs); hash seeds differ on every replay, and every replay is required to reproduce the recorded state bytes");
